@@ -53,6 +53,8 @@ def col_array(col, nullable=False):
         # pandas' nullable extension dtypes: a missing cell is pd.NA
         return pd.array([pd.NA if (isinstance(v, float) and v != v) else v for v in vals], dtype=NULLABLE[k])
     if k == "text":
+        if col.get("infer"):
+            return list(vals)        # let pandas choose the column type (pandas 3: str, with NaN for a missing cell)
         if any(not isinstance(v, str) for v in vals):
             # an explicit object Series keeps each spelling of an empty cell (None / NaN / NaT) as given;
             # a bare object array would be re-inferred by the DataFrame constructor
